@@ -41,6 +41,7 @@ type World struct {
 
 	modCache  map[*ssa.Function]*modSet
 	implCache map[string][]*ssa.Function
+	cancelFields map[string]bool
 }
 
 // findContractFiles lists zz_verif_contracts.go files under the repo.
